@@ -20,7 +20,9 @@ IntegralCells ==
                       "decay_large", "beyond_low", "beyond_high"}]
 PotentialCells ==
     [pot : {"stefanBoltzmannTable", "stefanBoltzmannDirect", "heavySuppressed", "heavyBeyondTable", "thermalSum", "cwFormula",
-            "continuousAtZero_direct", "continuousAtZero_table"}]
+            "continuousAtZero_direct", "continuousAtZero_table",
+            "thermalSumUnits",          \* V_T / T^4 is a function of m^2/T^2 alone: unit systems with T from 1e-17 to 1e12
+            "historyIndependent"}]      \* an integral object answers the same, and correctly, after a scan of 600 other arguments
     \cup [pot : {"continuousAtTableEnd"}, end : {"low", "high"}, mode : Modes]
     \cup [pot : {"imaginaryOption", "imaginaryOptionCW"}, opt : ImOpts, sign : {"pos", "neg"}]
 Cells == IntegralCells \cup PotentialCells
@@ -48,6 +50,8 @@ Bound(c) ==
            [] c.pot = "heavyBeyondTable" -> 10                    \* the same for m^2/T^2 from 1000.5 to 1e6, beyond the tables
            [] c.pot = "heavySuppressed" -> 10                     \* |V_T| / |V_SB| below 1e-10 at m^2/T^2 = 900
            [] c.pot = "thermalSum" -> 7
+           [] c.pot = "thermalSumUnits" -> 7
+           [] c.pot = "historyIndependent" -> 7
            [] c.pot = "cwFormula" -> 12
            [] c.pot \in {"continuousAtZero_direct", "continuousAtZero_table"} -> 6
            [] c.pot = "continuousAtTableEnd" -> 6
@@ -63,5 +67,5 @@ Spec == Init /\ [][Next]_vars
 Complete == done = Cells
 Small == Cardinality(done) <= 2
 Monotone == [][done \subseteq done']_vars
-CellCount == Cardinality(Cells) = 32 + 8 + 6 + 16
+CellCount == Cardinality(Cells) = 32 + 10 + 6 + 16
 =============================================================================
